@@ -18,7 +18,7 @@ PROPS = {}
 _WIP = "check not built yet in this round (planned, see DESIGN.md section 5)"
 NOT_APPLICABLE = {
     "C02": _WIP, "C06": _WIP,
-    "C11": _WIP, "C12": _WIP,
+    "C12": _WIP,
     "C03": "accept/reject and AST construction live in a proc-macro-generated PEG parser over `str`; Verus cannot reason about str/macro output and Kani cannot carry a symbolic text past the mandatory header, so no contract within reach states 'accepts exactly this language'",
     "C16": "composes core::fmt/pad string formatting with the pest parser over all ASTs; both halves are str-level and outside what Verus accepts or Kani can bound meaningfully",
     "C17": "behaviour is spread over crossterm event polling, tui rendering, a nom grammar over str and a filesystem completer: terminal/filesystem effects and string combinators neither verifier can execute or specify",
@@ -267,5 +267,26 @@ PROPS["C04"] = {
     "level_note": "Trusted: Kani/CBMC, rustc, C09's certificate (re-checked here: c09_step). The whole-run transparency statement (interrupted run == uninterrupted run for a register-preserving handler) is the composition of I.entry, the handler's own triples and I.reti: argued, not machine-checked. The case 'pending, IE clear, at a sampling word' is unconstrained (statement silent; the code drops the press).",
     "samples": [{"obligation": "C04.E.int.flip-flop-kept-until-sampled", "text": "executed word is not an end-of-instruction branch ==> flip-flop' == flip-flop", "domain": "all certified (micro-address, IR) x fully symbolic data"}],
     "trusted": ["kani::stub stand-ins for three float-heavy Board operations inside the entry/RETI triples"],
+    "assumptions": [],
+}
+
+PROPS["C11"] = {
+    "inject": ST_ALL + [ST_MACHINE, ("emulator-2a-lib/src/machine/raw/mod.rs", "c09_seq.rs", "verif_c09"),
+                        ("emulator-2a-lib/src/machine/raw/mod.rs", "c11_raw.rs", "verif_c11r"),
+                        ("emulator-2a-lib/src/machine/mod.rs", "c11_machine.rs", "verif_c11")],
+    "pregen": _pregen_c09,
+    "groups": [{"match": "c11_(loop_logic|canary)", "flags": ["-Z", "stubbing", "--cbmc-args", "--unwindset", "memcmp.0:250"]},
+               {"match": "c11_stuck_step_returns", "flags": ["--cbmc-args", "--unwindset", "memcmp.0:250"]},
+               {"match": ".*", "flags": []}],
+    "select": lambda allh, tier, seed: [h for h in allh if (h.startswith("c11_") and (tier != "quick" or h != "c11_stuck_step_returns")) or h in ("c09_step", "c09_stuck", "c09_init")],
+    "unwind_is_clause": True,
+    "functions": ["Machine::trigger_key_clock", "Machine::set_step_mode (frame: C05)", "RawMachine::is_instruction_done", "RawMachine::trigger_clock_edge (as callee contract; real in T.real/T.term)"],
+    "timeout": 900,
+    "technique": "caller-against-callee-contract check of the step loop (abstract clock edge via kani::stub, ghost trace), real-mode equivalence on the real edge, fixpoint lemma for the stuck set + termination bound as unwinding assertion, Kani/CBMC; termination for defined opcodes from C09's rank",
+    "level_text": "Proof of: Real mode = exactly one edge; the assembly loop issues exactly the edges the statement prescribes for every behaviour of the edge (bounded to 6 abstract edges per step); stuck states are fixpoints of the real edge and the real loop returns from them. Termination for all defined opcodes rests on C09 (rank, MUL/DIV variants).",
+    "level_note": "Trusted: Kani/CBMC, rustc, C09's certificate (re-checked here). T.loop is BOUNDED in the number of abstract edges per step (K = 6; the loop has no counter, all control patterns occur within a few edges) and complete in callee behaviours. 'k steps == the corresponding edges' and 'mode switches do not alter the computation' follow because both modes compose the same deterministic edge function and step_mode lives outside RawMachine.",
+    "bounded": ["c11_loop_logic: at most K = 6 abstract edges per step"],
+    "samples": [{"obligation": "C11.T.loop.never-more-edges-than-needed", "text": "the step stops right after the first edge that halts the machine / completes the instruction / leaves a stuck machine unchanged", "domain": "all traces of the abstract edge up to 6 edges"}],
+    "trusted": ["kani::stub(RawMachine::trigger_clock_edge -> abstract_edge) in T.loop: the callee is represented by its contract"],
     "assumptions": [],
 }
